@@ -165,7 +165,7 @@ def run_one(ns, i, seed_i, tier):
             c.markers = getattr(case, "markers", None)
             o = eb.run_case(ns, c, trace=True, listing=True)
             return bool(monitor_violations(o)) or (not c.stmts and bool(marker_violations(c, o)))
-        c2, s2 = eb.minimise(ns, case, [], bad, max_probes=150) if monitor_violations(obs0) else (case, [])
+        c2, s2 = eb.minimise(ns, case, [], bad, max_probes=400) if monitor_violations(obs0) else (case, [])
         v2 = monitor_violations(eb.run_case(ns, c2, trace=True)) or v0
         violations.append(violation_record(c2 if v2 is not v0 else case, [], v2, "fault-free run"))
     sched_budget = max(400_000, 8 * obs0["forces"])
@@ -212,7 +212,7 @@ def run_one(ns, i, seed_i, tier):
 
                     def still(c, s):
                         return bool(monitor_violations(eb.run_case(ns, eb.witness_case(c, s), trace=True)))
-                    c2, s2 = eb.minimise(ns, case, sched, still, max_probes=150)
+                    c2, s2 = eb.minimise(ns, case, sched, still, max_probes=400)
                     wv2 = monitor_violations(eb.run_case(ns, eb.witness_case(c2, s2), trace=True))
                     if wv2:
                         violations.append(violation_record(c2, s2, wv2, "found under a late-delivery schedule, confirmed on the moved source"))
